@@ -128,6 +128,15 @@ CHECKS = {
             'one field tuple per aggregation key for gauges/percentiles; relative tolerance 1e-9 on percentiles',
             'Hypothesis update sequences vs dictionary model; end-to-end series-count bound',
             '5/C18', 'pbt'),
+    'C19': ('exploration',
+            'Generated znode histories (member names reused, parent deleted with members present and re-created, consumer '
+            'callbacks that raise, per-call latencies so that members vanish between listing and reading) against the real '
+            'ServerSet and the real kazoo DataWatch/ChildrenWatch recipes on an in-process fake Kazoo client; at quiescence the '
+            'join/leave log replayed in order equals the members in the tree, no double join/leave, and a real HeapBalancerSink '
+            'behind ZooKeeperServerSetProvider knows exactly the tree\'s endpoints.',
+            'fake Kazoo client (no session loss); one callback greenlet that survives callback exceptions',
+            'Hypothesis op-list state machine on fake Kazoo + real kazoo recipes vs znode-tree model',
+            '5/C19', 'simkernel'),
     'C20': ('exploration',
             'Generated interface classes (underscore-decorated, inherited and overriding methods, varied signatures) are '
             'proxied and called against a recording stub dispatcher with identity checks on every forwarded argument and '
